@@ -634,6 +634,9 @@ class ClientHello(HelloMessage):
                 while p2.getRemainingLength() > 0:
                     ext = TLSExtension().parse(p2)
                     self.extensions += [ext]
+                if len(set(e.extType for e in self.extensions)) != \
+                        len(self.extensions):
+                    raise DecodeError("Duplicate extension in ClientHello")
             p.stopLengthCheck()
         return self
 
@@ -942,6 +945,9 @@ class ServerHello(HelloMessage):
                 else:
                     ext = TLSExtension(server=True).parse(p2)
                 self.extensions += [ext]
+            if len(set(e.extType for e in self.extensions)) != \
+                    len(self.extensions):
+                raise DecodeError("Duplicate extension in ServerHello")
         p.stopLengthCheck()
         return self
 
